@@ -292,33 +292,44 @@ theorem ne_multi_eq_map (ln exp : Q → Q) (fl : Bool) (n : Nat) (xs ts ws : Mat
 example : ([[1/2, 1/4], [1/2, 1/2]] : Mat).length = ([[1, 0], [1, 1]] : Mat).length
     ∧ ∀ r ∈ ([[1/2, 1/4], [1/2, 1/2]] : Mat), r.length = 2 := by decide
 
-/-! ### the class forms `WeightedCalibration` / `BinaryNormalizedEntropy`: one guard for all tasks
+/-! ### the class forms `WeightedCalibration` / `BinaryNormalizedEntropy`: the "no update yet" guard
 
-  FALSE for the code as it is (finding `C16|WeightedCalibration|one-degenerate-task|degenerate-task-empties-all-tasks`,
-  `C16|BinaryNormalizedEntropy|one-degenerate-task|degenerate-task-empties-all-tasks`):
+  `compute()` starts with `if torch.all(self.weighted_target_sum == 0.0): return torch.empty(0)` (resp.
+  `num_examples`).  Before the `fix:` commits b23feff / 622011e the test was `torch.any`, and one task without
+  positive target weight (resp. without weight) made the result of EVERY task disappear
+  (`C16|WeightedCalibration|one-degenerate-task|…`, `C16|BinaryNormalizedEntropy|one-degenerate-task|…`: fixed). -/
 
-    theorem class_compute_per_task (sums : List (Q × Q)) :
-      wcClassCompute sums = sums.flatMap fun s => wcClassCompute [s]
+/-- **per task**: unless every task is degenerate (the documented "no update yet" case), entry `i`
+    of `compute()` is the division of task `i`'s own sums — `x/0` of a degenerate task stays in
+    that task, as in the functional — whatever the other tasks hold; and for a non-degenerate
+    task it is exactly what the single-task instance reports. -/
+theorem class_compute_per_task (ln : Q → Q) (sums : List (Q × Q)) (stats : List (Q × Q × Q))
+    (h : ∃ s ∈ sums, s.2 ≠ 0) (h' : ∃ s ∈ stats, s.2.2 ≠ 0) :
+    wcClassCompute sums = sums.map (fun s => xdiv s.1 s.2)
+      ∧ bneClassCompute ln stats = stats.map (fun s => Agg.bneCompute ln s.1 s.2.1 s.2.2)
+      ∧ (∀ s : Q × Q, s.2 ≠ 0 → wcClassCompute [s] = [xdiv s.1 s.2])
+      ∧ (∀ s : Q × Q × Q, s.2.2 ≠ 0 → bneClassCompute ln [s] = [Agg.bneCompute ln s.1 s.2.1 s.2.2]) :=
+  ⟨guard_per_task (fun (s : Q × Q) => s.2) (fun s => xdiv s.1 s.2) sums h,
+   guard_per_task (fun (s : Q × Q × Q) => s.2.2) (fun s => Agg.bneCompute ln s.1 s.2.1 s.2.2) stats h',
+   fun s hs => guard_per_task (fun (s : Q × Q) => s.2) (fun s => xdiv s.1 s.2) [s] ⟨s, by simp, hs⟩,
+   fun s hs => guard_per_task (fun (s : Q × Q × Q) => s.2.2) (fun s => Agg.bneCompute ln s.1 s.2.1 s.2.2) [s]
+     ⟨s, by simp, hs⟩⟩
 
-  `compute()` starts with `if torch.any(self.weighted_target_sum == 0.0): return torch.empty(0)` (resp.
-  `num_examples`): one task without positive target weight (resp. without weight) makes the result of EVERY
-  task disappear, while the single-task instance of every other task — and the functional — report a value. -/
+example : ∃ s ∈ ([(1, 1), (1, 0)] : List (Q × Q)), s.2 ≠ 0 := ⟨(1, 1), by simp, by decide +kernel⟩
 
-/-- what does hold: when no task is degenerate, `compute()` is the per-task computation. -/
-theorem class_compute_per_task_partial (ln : Q → Q) (sums : List (Q × Q)) (stats : List (Q × Q × Q))
-    (h : ∀ s ∈ sums, s.2 ≠ 0) (h' : ∀ s ∈ stats, s.2.2 ≠ 0) :
-    wcClassCompute sums = sums.flatMap (fun s => wcClassCompute [s])
-      ∧ bneClassCompute ln stats = stats.flatMap (fun s => bneClassCompute ln [s]) := by
-  exact ⟨guard_per_task (fun (s : Q × Q) => s.2) (fun s => xdiv s.1 s.2) sums h,
-    guard_per_task (fun (s : Q × Q × Q) => s.2.2) (fun s => Agg.bneCompute ln s.1 s.2.1 s.2.2) stats h'⟩
+/-- the documented exception: every task without denominator ("no update yet") ⇒ an empty tensor. -/
+theorem class_compute_no_update (ln : Q → Q) (sums : List (Q × Q)) (stats : List (Q × Q × Q))
+    (h : ∀ s ∈ sums, s.2 = 0) (h' : ∀ s ∈ stats, s.2.2 = 0) :
+    wcClassCompute sums = [] ∧ bneClassCompute ln stats = [] :=
+  ⟨guard_no_update (fun (s : Q × Q) => s.2) (fun s => xdiv s.1 s.2) sums h,
+   guard_no_update (fun (s : Q × Q × Q) => s.2.2) (fun s => Agg.bneCompute ln s.1 s.2.1 s.2.2) stats h'⟩
 
-example : ∀ s ∈ ([(1, 1), (7/4, 2)] : List (Q × Q)), s.2 ≠ 0 := by decide +kernel
-
-/-- witness (replayed on the real classes by `./check C16`): task 0 has calibration 1 on its own,
-    task 1 has no positive target — the two-task instance reports nothing at all. -/
-theorem class_compute_per_task_witness :
-    wcClassCompute [(1, 1), (1, 0)] = [] ∧ wcClassCompute [(1, 1)] = [.val 1]
-      ∧ wcClassCompute [(1, 1), (1, 0)] ≠ [(1, 1), (1, 0)].flatMap (fun s => wcClassCompute [s]) := by
+/-- regression on the input of the former witness (replayed on the real classes by `./check C16`):
+    task 0 has calibration 1, task 1 has no positive target — the two-task instance now reports
+    `[1, inf]` like the functional, and task 0's entry is the single-task instance's value. -/
+theorem class_compute_per_task_regression :
+    wcClassCompute [(1, 1), (1, 0)] = [.val 1, .pinf] ∧ wcClassCompute [(1, 1)] = [.val 1]
+      ∧ wcClassCompute [(0, 0), (1, 0)] = [] := by
   decide +kernel
 
 /-! ## 5. `sum(dim=0)` per output: mean squared error, R² -/
